@@ -105,6 +105,11 @@ def cases(ctx):
         sc, ec = gen.cfg(rng)
         sampler = SAMPLERS[int(rng.integers(0, len(SAMPLERS)))]
         grouped = bool(rng.random() < 0.25) and sampler[0] in ("replacement", "single_pass", "dynamic", "identity")
+        if grouped and rng.random() < 0.35:
+            # few scores over very few values, tied across groups: the same score multisets are drawn repeatedly while the
+            # group labels attached to them differ from draw to draw
+            pos, neg = rng.integers(0, 3, int(rng.integers(2, 7))).astype(float), rng.integers(0, 3, int(rng.integers(2, 7))).astype(float)
+            kind = "tiny-discrete"
         if grouped and sampler[0] in ("replacement", "dynamic") and rng.random() < 0.5:
             sampler = (sampler[0], "by_group")  # only GroupScores knows this stratification (and resolves 'dynamic' differently)
             if rng.random() < 0.5:
